@@ -143,4 +143,99 @@ func Bimap.Range
   loop 0 invariant !itermod && loglen(f) == niter
   loop 0 invariant forall i :: 0 <= i && i < loglen(f) ==> visited[logarg(f, 0, i)] && has(b.forward, logarg(f, 0, i)) && b.forward[logarg(f, 0, i)] == logarg(f, 1, i) && f(logarg(f, 0, i), logarg(f, 1, i))
   loop 0 invariant forall i, j :: 0 <= i && i < j && j < loglen(f) ==> logarg(f, 0, i) != logarg(f, 0, j)
+
+// ---------------------------------------------------------------- C03: maps.Set against the Set interface contract
+
+func Set.Len
+  property C03
+  implements sets.Set.Len
+
+func Set.Has
+  property C03
+  implements sets.Set.Has
+
+func Set.Add
+  property C03
+  implements sets.Set.Add
+  requires s != nil
+
+func Set.Remove
+  property C03
+  implements sets.Set.Remove
+
+func Set.AddSet
+  property C03
+  implements sets.Set.AddSet
+  requires s != nil
+  rangecall 0 invariant added == card(s) - old(card(s)) && added >= 0
+  rangecall 0 invariant forall x T :: {mem(s, x)} mem(s, x) == (old(mem(s, x)) || (visited[x] && old(mem(set, x))))
+  rangecall 0 invariant setmap(set) != setmap(s) ==> (forall x T :: {mem(set, x)} mem(set, x) == old(mem(set, x)))
+  rangecall 0 invariant forall x T :: {visited[x]} visited[x] ==> old(mem(set, x))
+
+func Set.RemoveSet
+  property C03
+  implements sets.Set.RemoveSet
+  rangecall 0 invariant removed == old(card(s)) - card(s) && removed >= 0
+  rangecall 0 invariant forall x T :: {mem(s, x)} mem(s, x) == (old(mem(s, x)) && !(visited[x] && old(mem(set, x))))
+  rangecall 0 invariant setmap(set) != setmap(s) ==> (forall x T :: {mem(set, x)} mem(set, x) == old(mem(set, x)))
+  rangecall 0 invariant forall x T :: {visited[x]} visited[x] ==> old(mem(set, x))
+
+func Set.Clone
+  property C03
+  implements sets.Set.Clone
+  loop 0 invariant clone != nil && fresh(clone) && !itermod && len(clone) == niter
+  loop 0 invariant forall x T :: {has(clone, x)} has(clone, x) == visited[x]
+  loop 0 invariant forall x T :: {visited[x]} visited[x] ==> has(s, x)
+
+func Set.Slice
+  property C03
+  implements sets.Set.Slice
+  loop 0 invariant fresh(result) && !itermod && len(result) == niter
+  loop 0 invariant forall j :: 0 <= j && j < len(result) ==> visited[result[j]]
+  loop 0 invariant forall x T :: {visited[x]} visited[x] ==> has(s, x) && (exists j :: 0 <= j && j < len(result) && result[j] == x)
+  loop 0 invariant forall i, j :: 0 <= i && i < j && j < len(result) ==> result[i] != result[j]
+
+func Set.Intersect
+  property C03
+  implements sets.Set.Intersect
+  loop 0 invariant result != nil && fresh(result) && !itermod
+  loop 0 invariant forall x T :: {has(result, x)} {visited[x]} has(result, x) == (visited[x] && mem(other, x))
+  loop 0 invariant forall x T :: {visited[x]} visited[x] ==> has(s, x)
+
+func Set.Union
+  property C03
+  implements sets.Set.Union
+
+func Set.SetDiff
+  property C03
+  implements sets.Set.SetDiff
+  loop 0 invariant result != nil && fresh(result) && !itermod
+  loop 0 invariant forall x T :: {has(result, x)} {visited[x]} has(result, x) == (visited[x] && !mem(other, x))
+  loop 0 invariant forall x T :: {visited[x]} visited[x] ==> has(s, x)
+
+func Set.SymDiff
+  property C03
+  implements sets.Set.SymDiff
+  rangecall 0 invariant result != nil && fresh(setmap(result))
+  rangecall 0 invariant forall x T :: {mem(result, x)} mem(result, x) == ((mem(s, x) && !mem(other, x)) || (visited[x] && !mem(s, x)))
+  rangecall 0 invariant forall x T :: {visited[x]} visited[x] ==> mem(other, x)
+
+func Set.Range
+  property C03
+  ensures[members] forall i :: 0 <= i && i < loglen(f) ==> has(s, logarg(f, 0, i))
+  ensures[once]    forall i, j :: 0 <= i && i < j && j < loglen(f) ==> logarg(f, 0, i) != logarg(f, 0, j)
+  ensures[stop]    forall i :: 0 <= i && i < loglen(f) - 1 ==> f(logarg(f, 0, i))
+  ensures[all]     (forall i :: 0 <= i && i < loglen(f) ==> f(logarg(f, 0, i))) ==> loglen(f) == len(s)
+  loop 0 invariant !itermod && loglen(f) == niter
+  loop 0 invariant forall i :: 0 <= i && i < loglen(f) ==> visited[logarg(f, 0, i)] && has(s, logarg(f, 0, i)) && f(logarg(f, 0, i))
+  loop 0 invariant forall i, j :: 0 <= i && i < j && j < loglen(f) ==> logarg(f, 0, i) != logarg(f, 0, j)
+
+func NewSetFromSlice
+  property C03
+  ensures[fresh]   result != nil && fresh(setmap(result))
+  ensures[members] forall x E :: {mem(result, x)} mem(result, x) == memberOfSlice(slice, x)
+  loop 0 invariant -1 <= rangeindex && rangeindex < len(slice) && set != nil && fresh(set)
+  loop 0 invariant forall x E :: {has(set, x)} has(set, x) == (exists j :: 0 <= j && j <= rangeindex && slice[j] == x)
+
+spec memberOfSlice(u []E, x E) bool = exists m :: 0 <= m && m < len(u) && u[m] == x
 @*/
